@@ -27,11 +27,12 @@ type TNode struct {
 
 type C13Case struct {
 	Root      *TNode `json:"root"`
-	Alts      int    `json:"alts"`      // > 0: the root is a list of 1+Alts alternatives
-	StopAt    int    `json:"stopAt"`    // Walk: node index (post-order) where the callback returns true, -1 never
-	FailCheck int    `json:"failCheck"` // index among checkers, -1 none
-	FailTrans int    `json:"failTrans"` // index among transformers reached, -1 none
-	FailEval  int    `json:"failEval"`  // node id whose Eval fails, -1 none
+	Alts      int    `json:"alts"`             // > 0: the root is a list of 1+Alts alternatives
+	StopAt    int    `json:"stopAt"`           // Walk: node index (post-order) where the callback returns true, -1 never
+	FailCheck int    `json:"failCheck"`        // index among checkers, -1 none
+	FailTrans int    `json:"failTrans"`        // index among transformers reached, -1 none
+	FailEval  int    `json:"failEval"`         // node id whose Eval fails, -1 none
+	CtxErr    bool   `json:"ctxErr,omitempty"` // Parse pass: the (successful) parser left a failed attempt's error in the context, beyond every node
 }
 
 func (n *TNode) String() string {
@@ -114,6 +115,7 @@ func genC13(t *rapid.T) interface{} {
 	if rapid.Bool().Draw(t, "noinject") {
 		c.FailCheck, c.FailTrans, c.FailEval = -1, -1, -1
 	}
+	c.CtxErr = rapid.Bool().Draw(t, "ctxErr")
 	return c
 }
 
@@ -696,6 +698,10 @@ func checkC13(ci interface{}, st *Stats) (err error) {
 		ctx.EnableTransformation()
 		ctx.EnableStaticCheck()
 		prepared := parser.Func(func(ctx *parsley.Context, l data.IntMap, pos parsley.Pos) (parsley.Node, data.IntSet, parsley.Error) {
+			if c.CtxErr {
+				// what Seq/Any/Choice do on success: the furthest failed attempt stays in the context
+				ctx.SetError(parsley.NewError(f.Pos(total+32), parsley.NotFoundError("one more element")))
+			}
 			return root, data.EmptyIntSet, nil
 		})
 		if !okWant {
